@@ -5,7 +5,7 @@ Mirrors, over `Rat` (exact; floating-point rounding is not modelled):
 
 * `sparseSpACE/BasisFunctions.py`: `LagrangeBasis` (`__init__` factor, `__call__`, `get_first_derivative` =
   `derivative_for_index(x,[index])`, `get_integral`), `LagrangeBasisRestricted` (`point_in_support`,
-  `get_boundaries`, the three restricted evaluations), `BSpline` (`recursive_eval`, `chi`,
+  `get_boundaries`, the three restricted evaluations, `get_integral` clipped to `[a,b]`), `BSpline` (`recursive_eval`, `chi`,
   `get_first_derivative_recursive`, `get_integral`), `HierarchicalNotAKnotBSpline` (dispatch only);
 * `sparseSpACE/Grid.py`: knot selection of `GlobalLagrangeGrid.compute_1D_quad_weights` / `LagrangeGrid1D`
   (`get_parent`, the `p+1` window), `BasisGrid.interpolate` / `GlobalBasisGrid.interpolate`;
@@ -87,11 +87,14 @@ def glRule (f : Rat → Rat) (l r : Rat) (c w : List Rat) : Rat :=
 def lagIntegral (knots : List Rat) (i : Nat) (a b : Rat) (c w : List Rat) : Rat :=
   glRule (lagrange knots i) a b c w
 
-/-- `LagrangeBasisRestricted.get_integral(a,b,coords,weights)`: the arguments `a`, `b` are IGNORED by the code; the
-rule is applied on the support -/
-def lagIntegralR (knots : List Rat) (i : Nat) (_a _b : Rat) (c w : List Rat) : Rat :=
+/-- `LagrangeBasisRestricted.get_integral(a,b,coords,weights)`: the rule is applied on the part of the support
+inside `[a,b]` (`max(left,a)`, `min(right,b)`; empty intersection: `0.0`) -/
+def lagIntegralR (knots : List Rat) (i : Nat) (a b : Rat) (c w : List Rat) : Rat :=
   match support knots i with
-  | some (l, r) => glRule (lagrangeR knots i) l r c w
+  | some (l, r) =>
+    let l' := max l a
+    let r' := min r b
+    if r' ≤ l' then 0 else glRule (lagrangeR knots i) l' r' c w
   | none => 0
 
 /-! ## B-splines (Cox–de Boor as coded) -/
